@@ -56,6 +56,13 @@ type c12App struct {
 	Args []c12Val
 }
 type c12Builder struct{ S *c12Str }
+
+// c12Map is the value of a read-only package-level map table (keys and values in literal order).
+type c12Map struct {
+	Typ  types.Type
+	Keys []c12Val
+	Vals []c12Val
+}
 type c12Tuple struct{ Vals []c12Val }
 type c12Nil struct{}
 
@@ -83,6 +90,9 @@ type c12Ref struct {
 	Path  string
 	Field *types.Var
 	Idx   []c12Val
+	// Addr: the value is the address of that piece of state (&m.f), which is never nil; without it the
+	// reference may also stand for a pointer-typed field whose value is unknown
+	Addr bool
 }
 
 func c12Lit(s string) c12Str { return c12Str{Parts: []c12Part{{Lit: s}}} }
@@ -179,6 +189,8 @@ func c12Show(v c12Val) string {
 		return "(" + strings.Join(e, ",") + ")"
 	case c12Nil:
 		return "nil"
+	case c12Map:
+		return fmt.Sprintf("map[%d entries]", len(t.Keys))
 	case c12Ref:
 		k := "&" + t.Path
 		for _, ix := range t.Idx {
